@@ -5,15 +5,16 @@
    cells, keeps the heap closed and acyclic, and returns a new cell or one its arguments
    reach.  Per family:
      flood / union_no_overlap / filter_period_intersect / simplify_string   [framed]
-     sort / limit / filter / concat / merge / chunk                         [grown]
+     sort / limit / filter / filter_regex / concat / merge / chunk          [grown]
      categorize / tag / split_url_events                                     [rewrites]
      period_union                                                            [pu_h_frame] + what the merged list holds. *)
 From AwVerif Require Import Base.Prelude Model.MemHeap Model.Timeslot Model.TransformHeap Model.DictHeap
-  Model.Group Model.GroupHeap Model.ClassifyBase Model.Classify Model.ClassifyHeap Model.TransformBuiltins
-  Model.MemHeapQuery
+  Model.Group Model.GroupHeap Model.ClassifyBase Model.Classify Model.ClassifyHeap Model.FilterRegexHeap
+  Model.TransformBuiltins Model.MemHeapQuery
   Proofs.MemHeapBase Proofs.MemHeapCopy Proofs.MemHeapFrame Proofs.TransformHeapCopy
   Proofs.TransformHeapBase Proofs.TransformHeapFlood Proofs.TransformHeapUnion Proofs.TransformHeapIntersect
-  Proofs.DictHeapBase Proofs.GroupHeapFrame Proofs.ClassifyHeapFrame Proofs.MemHeapQueryProofs.
+  Proofs.DictHeapBase Proofs.GroupHeapFrame Proofs.ClassifyHeapFrame Proofs.MemHeapQueryProofs
+  Proofs.FilterRegexHeapProofs.
 From Coq Require Import Arith Relations Sorting.Permutation.
 Local Open Scope nat_scope.
 Local Notation lookup := MemHeap.lookup.
@@ -582,6 +583,10 @@ Proof.
   - apply tag_conf3; auto.
   - apply split_conf3; auto. apply AL. left; auto.
   - apply simplify_conf3; auto.
+  - (* filter_keyvals_regex: one new list of the argument's own elements *)
+    eapply of_res_one_new_list with (L := l); auto; [left; auto|]. intros h' L' E.
+    destruct (fregex_h_shape _ _ _ _ _ _ _ E) as (_ & p & ks & out & Lk & O & S). exists p, ks, out.
+    split; auto. split; auto. now apply subseq_incl.
 Qed.
 
 Theorem transform_builtins_confined : forall dc, builtins_confined (transform_builtin dc).
